@@ -276,7 +276,7 @@ var interesting = map[string]bool{
 	"authenticateRequest": true, "GetAllocationForUserID": true, "GetAllocation": true, "GrantPermission": true, "ipMatchesFamily": true,
 	"CreateAllocation": true, "DeleteAllocation": true, "Refresh": true, "AddPermission": true, "AddChannelBind": true,
 	"CreateTCPConnection": true, "GetTCPConnection": true, "CreateReservation": true, "SetResponseCache": true, "WriteTo": true,
-	"Valid": true,
+	"Valid": true, "NewPermission": true,
 }
 
 // call ids are fixed by the (sorted) list of interesting function names, so that the requirement
